@@ -26,11 +26,17 @@ Quick tour
              "custom_data": bytes|None, "header": {field: value}, "body": {field: value}}
     extra   list of off-path X.509 elements {"name", "parent", "time", "curve", "sig",
             "samekey_as": name of an x509 element whose key this certificate also carries}
+    embed   None | {"kind": "genuine"|"foreign", "time": Valid|Expired|NotYet, "sig": "self"|"other"}:
+            a self-signed root certificate shipped INSIDE the certificate as an element NAMED like
+            the root authority ("sgx_root"): the genuine root (same key; the very same certificate
+            when time is Valid and sig is self) or a foreign root (another key).  It is on nobody's
+            path; x509[0] may be issued by the foreign root with "sig": "foreign".
     reparent {element name: new signed_by}   (applied after signing: signatures are NOT redone)
     rot     which root of trust to hand to the validator:
             "right" | "fresh" (another self-signed certificate, other key) |
             "samekey" (another self-signed certificate over the SAME key) |
-            "top" (the certificate of x509[0], i.e. a key of the chain but not the root's)
+            "top" (the certificate of x509[0], i.e. a key of the chain but not the root's) |
+            "foreign" (the foreign self-signed root, cf. embed)
     shuffle bool: shuffle the order of the elements in the JSON document
     pem_newlines bool: base64 of X.509 elements split in 64-column lines
 
@@ -367,6 +373,7 @@ def default_spec(depth=2):
         "quote": {"name": "quote", "sig": "parent", "bind": "ok", "custom_data": None,
                   "header": {}, "body": {}},
         "extra": [],
+        "embed": None,
         "reparent": {},
         "rot": "right",
         "shuffle": False,
@@ -406,6 +413,12 @@ def build(spec, rng, now=None):
     der[ROOT_NAME] = make_x509(root_cn, keys[ROOT_NAME], root_cn, keys[ROOT_NAME],
                                root_spec["time"], now, rng)
     cns = {ROOT_NAME: root_cn}
+    # a foreign root (somebody else's self-signed CA): may be embedded, may issue the top element,
+    # may be handed over as root of trust
+    keys["foreign_root"] = Key("P256")
+    cns["foreign_root"] = "foreign root %d" % rng.getrandbits(32)
+    foreign_der = make_x509(cns["foreign_root"], keys["foreign_root"], cns["foreign_root"],
+                            keys["foreign_root"], "Valid", now, rng)
 
     def other_key(like):
         return Key(like.curve if like.curve != "RSA" else "P256")
@@ -421,9 +434,13 @@ def build(spec, rng, now=None):
         cns[n] = "verif %s %d" % (n, rng.getrandbits(32))
         sig = xs.get("sig", "parent")
         signer = keys[parent] if sig != "other" else other_key(keys[parent])
+        issuer_cn = cns[parent]
         if sig == "other":
             keys["other:" + n] = signer
-        der[n] = make_x509(cns[n], keys[n], cns[parent], signer, xs.get("time", "Valid"), now, rng,
+        if sig == "foreign":
+            assert i == 0, "only the top element can hang from the foreign root"
+            signer, issuer_cn = keys["foreign_root"], cns["foreign_root"]
+        der[n] = make_x509(cns[n], keys[n], issuer_cn, signer, xs.get("time", "Valid"), now, rng,
                            ca=(i < len(sp["x509"]) - 1))
         if sig == "swap":
             pending_swaps.append(n)
@@ -510,9 +527,22 @@ def build(spec, rng, now=None):
         pem[n] = der_to_pem(der[n])
         if n in elements:
             elements[n]["message"] = der_to_b64(der[n], sp.get("pem_newlines", False))
+    order = [qn, an] + list(reversed(xnames)) + [x["name"] for x in sp.get("extra") or []]
+    emb = sp.get("embed")
+    if emb:
+        ekey = keys[ROOT_NAME] if emb["kind"] == "genuine" else keys["foreign_root"]
+        ecn = root_cn if emb["kind"] == "genuine" else cns["foreign_root"]
+        if emb.get("time", "Valid") == "Valid" and emb.get("sig", "self") == "self":
+            eder = der[ROOT_NAME] if emb["kind"] == "genuine" else foreign_der
+        else:
+            esigner = ekey if emb.get("sig", "self") == "self" else other_key(ekey)
+            eder = make_x509(ecn, ekey, ecn, esigner, emb.get("time", "Valid"), now, rng)
+        der["embedded:" + ROOT_NAME] = eder
+        elements[ROOT_NAME] = {"name": ROOT_NAME, "type": "x509_pem", "signed_by": ROOT_NAME,
+                               "message": der_to_b64(eder, sp.get("pem_newlines", False))}
+        order.append(ROOT_NAME)
     for n, newp in (sp.get("reparent") or {}).items():
         elements[n]["signed_by"] = newp
-    order = [qn, an] + list(reversed(xnames)) + [x["name"] for x in sp.get("extra") or []]
     if sp.get("shuffle"):
         rng.shuffle(order)
     cert = {"version": 2, "targets": [qn], "elements": [elements[n] for n in order]}
@@ -524,6 +554,7 @@ def build(spec, rng, now=None):
     roots["samekey"] = der_to_pem(make_x509(root_cn + " reissued", keys[ROOT_NAME],
                                             root_cn + " reissued", keys[ROOT_NAME], "Valid", now, rng))
     roots["top"] = pem[xnames[0]] if xnames else pem[ROOT_NAME]
+    roots["foreign"] = der_to_pem(foreign_der)
     material = {
         "now": now, "keys": keys, "der": der, "pem": pem, "order": order, "spec": sp,
         "names": {"x509": xnames, "attkey": an, "quote": qn, "root": ROOT_NAME},
@@ -781,9 +812,14 @@ def abstract_of(mat, effects=None):
 
     def x509_abs(xs, orig_parent):
         n = xs["name"]
-        sig_ok = xs.get("sig", "parent") == "parent" and "sig" not in effects.get(n, ())
+        flipped = "sig" in effects.get(n, ())
+        sig_ok = xs.get("sig", "parent") == "parent" and not flipped
+        if xs.get("sig") == "foreign" and not flipped:
+            signer = "foreign"
+        else:
+            signer = keyid[orig_parent] if sig_ok else "other"
         return {"kind": "x509", "by": rep.get(n, orig_parent), "key": keyid[n],
-                "sigBy": keyid[orig_parent] if sig_ok else "other",
+                "sigBy": signer,
                 "time": xs.get("time", "Valid"), "curve": _curve_class(mat["keys"][n]),
                 "binds": True, "keyValid": True}
     parent = ROOT_NAME
@@ -792,6 +828,13 @@ def abstract_of(mat, effects=None):
         parent = xs["name"]
     for xs in sp.get("extra") or []:
         els[xs["name"]] = x509_abs(xs, xs.get("parent", ROOT_NAME))
+    emb = sp.get("embed")
+    if emb:
+        ek = ROOT_NAME if emb["kind"] == "genuine" else "foreign"
+        self_ok = emb.get("sig", "self") == "self" and "sig" not in effects.get(ROOT_NAME, ())
+        els[ROOT_NAME] = {"kind": "x509", "by": ROOT_NAME, "key": ek, "sigBy": ek if self_ok else "other",
+                          "time": emb.get("time", "Valid"), "curve": "P256", "binds": True,
+                          "keyValid": True}
     a = dict(default_spec()["attkey"])
     a.update(sp.get("attkey") or {})
     an = a["name"]
@@ -817,6 +860,8 @@ def abstract_of(mat, effects=None):
         rkey, rcurve = ROOT_NAME, _curve_class(mat["keys"][ROOT_NAME])
     elif which == "top" and sp["x509"]:        # the top element's own certificate as root of trust
         rkey, rcurve = keyid[sp["x509"][0]["name"]], _curve_class(mat["keys"][sp["x509"][0]["name"]])
+    elif which == "foreign":
+        rkey, rcurve = "foreign", "P256"
     else:
         rkey, rcurve = "wrong", _curve_class(mat["keys"]["fresh_root"])
     rot = {"kind": "x509", "by": ROOT_NAME, "key": rkey, "sigBy": ROOT_NAME, "time": "Valid",
